@@ -358,8 +358,16 @@ class HashClient:
     def gat(self, key, default=None, **kwargs):
         return self._run_cmd("gat", key, default, default=default, **kwargs)
 
-    def gats(self, key, default=None, **kwargs):
-        return self._run_cmd("gats", key, default, default=default, **kwargs)
+    def gats(self, key, default=None, cas_default=None, **kwargs):
+        # A miss is the pair (default, cas_default); so is a swallowed failure.
+        return self._run_cmd(
+            "gats",
+            key,
+            (default, cas_default),
+            default=default,
+            cas_default=cas_default,
+            **kwargs,
+        )
 
     def incr(self, key, *args, **kwargs):
         return self._run_cmd("incr", key, None, *args, **kwargs)
@@ -417,8 +425,16 @@ class HashClient:
 
     get_multi = get_many
 
-    def gets(self, key, *args, **kwargs):
-        return self._run_cmd("gets", key, None, *args, **kwargs)
+    def gets(self, key, default=None, cas_default=None, **kwargs):
+        # A miss is the pair (default, cas_default); so is a swallowed failure.
+        return self._run_cmd(
+            "gets",
+            key,
+            (default, cas_default),
+            default=default,
+            cas_default=cas_default,
+            **kwargs,
+        )
 
     def gets_many(self, keys, *args, **kwargs):
         return self.get_many(keys, gets=True, *args, **kwargs)
